@@ -94,7 +94,7 @@ def g_name(n):
 OPS = {'==': 'OEq', '!=': 'ONe', '<': 'OLt', '<=': 'OLe', '>': 'OGt', '>=': 'OGe'}
 FN_TAG = {'neg': 1, 'len': 2, 'not': 3, 'truth': 4, 'int': 5, 'dbl': 6, 'boom': 7, 'is_none': 8}
 USER_TAG = {'const': 1, 'raise': 2, 'data': 3, 'data_eq': 4, 'name_eq': 5, 'depth': 6, 'parent_name': 7,
-            'eq_or_raise': 8}
+            'eq_or_raise': 8, 'raise_truth': 9}
 
 
 def g_fn(f):
@@ -113,7 +113,7 @@ def g_pred(p, table):
         tag = g_nat(USER_TAG[kind])
         if kind == 'const':
             f = "(u_const %s)" % g_json(p[2], table)
-        elif kind == 'raise':
+        elif kind in ('raise', 'raise_truth'):
             f = "(u_raise %s)" % g_nat(p[2])
         elif kind == 'data':
             f = "u_data"
